@@ -111,12 +111,20 @@ func decodeURLPrefix(prefix string) (string, error) {
 	return decoded, nil
 }
 
+// onlyDotsPattern matches strings that consist only of dots in their percent-encoded or unencoded form.
+var onlyDotsPattern = regexp.MustCompile(`(?i)^(?:\.|%2e)+$`)
+
 func validateTrustedResourceURLSubstitution(args ...interface{}) (string, error) {
 	input := safehtmlutil.Stringify(args...)
 	if safehtmlutil.URLContainsDoubleDotSegment(input) {
 		// Reject substitutions containing the ".." dot-segment to prevent the final TrustedResourceURL from referencing
 		// a resource higher up in the path name hierarchy than the path specified in the prefix.
 		return "", fmt.Errorf(`cannot substitute %q after TrustedResourceURL prefix: ".." is disallowed`, input)
+	}
+	if onlyDotsPattern.MatchString(input) {
+		// A single dot could combine with an adjacent dot in the prefix or in a neighbouring
+		// substitution to form the ".." dot-segment.
+		return "", fmt.Errorf(`cannot substitute %q after TrustedResourceURL prefix: dot-segments are disallowed`, input)
 	}
 	return input, nil
 }
